@@ -392,9 +392,21 @@ func checkC11(c C11Case, r *Rec) *Violation {
 	// all variables at once, positionally
 	for _, names := range chunk(c.Names, 120) {
 		src := "(c_tuple " + strings.Join(names, " ") + ")"
-		for _, mask := range []int{0, 15} {
+		for _, mask := range []int{0, 15, 5} {
 			for i, o := range allOpts {
 				cc.CompileOptions[o] = mask&(1<<i) != 0
+			}
+			if mask == 5 {
+				// the same tuple with every second variable passed through an identity call: a variable
+				// stands directly in front of a parenthesis, and directly behind one
+				parts := make([]string, len(names))
+				for k, n := range names {
+					parts[k] = n
+					if k%2 == 1 {
+						parts[k] = "(c_id " + n + ")"
+					}
+				}
+				src = "(c_tuple " + strings.Join(parts, " ") + ")"
 			}
 			e, co := SafeCompile(cc, src)
 			if co.Panic != nil || co.Err != nil {
